@@ -25,6 +25,23 @@ Theorem C20_deliveries_never_panic :
     apply_update H (sA s) (map wire (firstn n (journal_diff sz (sM s) (j_loader (sA s)) mi mb))) lk <> None.
 Proof. exact deliveries_never_panic. Qed.
 
+(* "delivered ... in any batching": a node whose cursor is behind its upstream's version is sent at least one event,
+   for every item limit and every byte budget (also one smaller than a single event) — the convergence theorem does
+   not silently assume that deliveries make progress *)
+Theorem C20_delivery_makes_progress :
+  forall (H : event -> Z) (s : sys) sz mi mb, reach H s ->
+    (j_loader (sM s) < j_cur (sS s) -> journal_diff sz (sS s) (j_loader (sM s)) mi mb <> []) /\
+    (j_loader (sA s) < j_cur (sM s) -> journal_diff sz (sM s) (j_loader (sA s)) mi mb <> []).
+Proof. exact delivery_makes_progress. Qed.
+
+(* "when the diff is empty the maps are equal": empty answers on both hops mean both replicas equal the source *)
+Theorem C20_empty_diffs_mean_converged :
+  forall (H : event -> Z) (s : sys) sz mi mb, reach H s ->
+    journal_diff sz (sS s) (j_loader (sM s)) mi mb = [] ->
+    journal_diff sz (sM s) (j_loader (sA s)) mi mb = [] ->
+    j_entries (sM s) = j_entries (sS s) /\ j_entries (sA s) = map wire (j_entries (sS s)).
+Proof. exact empty_diffs_mean_converged. Qed.
+
 (* "... in any batching, partial deliveries": one delivery step, for any upstream that is itself a replica of the
    source (through any version- and key-preserving hop functions) and any prefix of the answer *)
 Theorem C20_delivery_keeps_replica_invariant :
@@ -112,6 +129,9 @@ Example C20_nonvacuous_chain :
   (exists j b, load_journal toyH ex_M true [1%nat] = Some (j, b) /\ j_loader j = 2 /\ length (j_entries j) = 1%nat) /\
   j_hash ex_M = j_hash ex_S /\ j_hash ex_S <> 0.
 Proof. vm_compute. repeat split; try reflexivity; try discriminate. eexists; eexists; repeat split; reflexivity. Qed.
+Example C20_nonvacuous_progress :
+  journal_diff (fun _ => 100) ex_S 1 0 1 = [ex_e2] /\ journal_diff (fun _ => 100) ex_S 4 1000 1000 = [].
+Proof. vm_compute. split; reflexivity. Qed.
 Example C20_nonvacuous_groups :
   let gs := sort_desc [Gr 1 1 [97] false; Gr 2 1 [97;98] false; Gr 3 1 [98] false] in
   sorted_desc gs = true /\ calc_group gs [97;98;99] = 2 /\ calc_group gs [97;99] = 1 /\ calc_group gs [99] = BuiltinGroupIDDefault.
